@@ -25,7 +25,7 @@ let dec_class (c : n) : string =
   match int_of_n c with
   | 1 -> "eof" | 2 -> "utf8" | 3 -> "bad-header" | 4 -> "file-version" | 5 -> "chunk-version"
   | 6 -> "type-mismatch" | 7 -> "invalid-data" | 8 -> "type-id" | 9 -> "rotation" | 10 -> "ocf-format"
-  | 11 -> "content-type" | 12 -> "io" | 13 -> "alloc"
+  | 11 -> "content-type" | 12 -> "io" | 13 -> "alloc" | 14 -> "chunk-reserved" | 15 -> "unknown-referent"
   | k -> Printf.sprintf "MODEL-%d" k
 
 type hints = {
